@@ -92,7 +92,7 @@ async def acallable_iterator(
 ) -> AsyncIterator[T]:
     subject = _awaitify(subject)
     value = await subject()
-    while value != sentinel:
+    while value is not sentinel and value != sentinel:
         yield value
         value = await subject()
 
